@@ -151,4 +151,13 @@ def HasBoilerplate (s : List Char) : Prop :=
 def HintOk (h : List Char) : Prop :=
   ∃ sg zh zm, (sg = '+' ∨ sg = '-') ∧ zh < 24 ∧ zm < 60 ∧ h = sg :: pad2 zh ++ pad2 zm
 
+/-- `t` is the normal form of the (stripped) header value `s` under the optional timezone hint:
+    no placeholder, a date of the grammar, the zone resolved, the result an existing instant in canonical form -/
+def Normalises (s : List Char) (hint : Option (List Char)) (t : List Char) : Prop :=
+  ¬ HasBoilerplate s ∧ (∀ x, hint = some x → HintOk x) ∧
+  ∃ date time z zone, Written s date time z ∧ ZoneResolves z hint zone ∧ t = date ++ ' ' :: time ++ zone ∧ Canonical t
+
+/-- 1995-07-02T00:00Z, the release of the first gettext -/
+def gettextEpoch : Civil := ⟨1995, 7, 2, 0, 0, false, 0, 0⟩
+
 end I18n.Spec.Date
